@@ -69,6 +69,12 @@ func init() {
 	generators["C17l"] = func(r *rand.Rand, tier, id string) Case {
 		return genC16(r, tier, id, c16Avoid{empty: true, flush: true, refsave: true, faults: true})
 	}
+	// C16p: long legacy histories (many orphan records), the write batch flushed in the middle of
+	// operations, no rollback (its interplay with flushes is the recorded C16-rollback-split-flush):
+	// deletions across the boundary while the batch is written out
+	generators["C16p"] = func(r *rand.Rand, tier, id string) Case {
+		return genC16(r, tier, id, c16Avoid{empty: true, refsave: true, pruneOnly: true})
+	}
 	runners["m1l"] = runM1L
 }
 
@@ -80,6 +86,7 @@ func init() {
 type c16Avoid struct {
 	empty, flush, refsave bool
 	holes                 bool // legacy-side deletions of single versions in any order ("ldel v")
+	pruneOnly             bool // long legacy history, no rollback / load, small flush thresholds
 	faults                bool // the deletion across the boundary is explored under storage faults
 	oneRefsave            bool // exactly one commit whose root is an untouched legacy node, no rollback afterwards
 }
@@ -147,8 +154,14 @@ func genC16(r *rand.Rand, tier, id string, avoid c16Avoid) Case {
 	if tier == "thorough" && r.Intn(3) == 0 {
 		nkeys, maxLegacy, newMuts = nkeys*4, 14, newMuts*3
 	}
+	if avoid.pruneOnly {
+		nkeys, maxLegacy = 12+r.Intn(10), 40
+	}
 	g := newKeyGen(r, nkeys)
 	n := int64(1 + r.Intn(maxLegacy))
+	if avoid.pruneOnly {
+		n = 20 + int64(r.Intn(20))
+	}
 	c := Case{ID: id, Kind: "m1l", Params: []string{"iv=-", "legacy=" + i64(n)}}
 	var ops [][]string
 
@@ -323,7 +336,11 @@ func genC16(r *rand.Rand, tier, id string, avoid c16Avoid) Case {
 		c16sweep(t, first-1, t.latest()+1, &ops)
 	} else {
 		// scripted openings: the situations named by the property
-		switch r.Intn(10) {
+		opening := r.Intn(10)
+		if avoid.pruneOnly {
+			opening = []int{0, 2, 3, 4, 6, 7}[r.Intn(6)]
+		}
+		switch opening {
 		case 0: // commits without writes on a legacy root
 			for i, m := 0, 1+r.Intn(3); i < m; i++ {
 				save()
@@ -382,6 +399,9 @@ func genC16(r *rand.Rand, tier, id string, avoid c16Avoid) Case {
 	w := map[string]int{"set": 30, "rm": 12, "save": 20, "reopen": 8, "prune": 12, "lvfo": 5, "load": 4, "rollback": 2, "read": 8, "whash": 2}
 	if avoid.oneRefsave {
 		w = map[string]int{"set": 30, "rm": 12, "save": 20, "reopen": 8, "prune": 6, "rollback": 2, "read": 8, "whash": 2}
+	}
+	if avoid.pruneOnly {
+		w = map[string]int{"set": 30, "rm": 12, "save": 20, "reopen": 8, "prune": 12, "rollback": 2, "read": 8, "whash": 2}
 	}
 	muts := 0
 	for muts < newMuts && len(ops) < 6000 {
@@ -481,6 +501,10 @@ func genC16(r *rand.Rand, tier, id string, avoid c16Avoid) Case {
 	ops = append(ops, []string{"x", "laudit"})
 	c.Ops = ops
 	c.Cfgs = c16Configs(r, tier, 2, avoid.flush)
+	if avoid.pruneOnly { // one of the two configurations on MemDB with the smallest threshold
+		c.Cfgs[0] = strings.Replace(strings.Replace(c.Cfgs[0], "backend="+cfgExtra(c.Cfgs[0], "backend", ""), "backend=memdb", 1),
+			"flush="+cfgExtra(c.Cfgs[0], "flush", ""), "flush=200", 1)
+	}
 	return c
 }
 
